@@ -7,7 +7,8 @@
    [all_children], [gaps], [compose]) is Spec/VisitorSpec.v.  Theorems hold for
    every fuel for which the model returns a result (fuel only bounds the
    traversal of replacement nodes, which is not structural). *)
-From PyGql Require Import Lang.VisitorModel Proofs.VisitorProofs Proofs.VisitorTermination.
+From PyGql Require Import Lang.VisitorModel Proofs.VisitorProofs Proofs.VisitorTermination
+                          Proofs.VisitorLocality Lang.VisitorEq Run.C18run Proofs.VisitorEqProofs.
 
 (* The model refines the declarative visit: the tree it returns is the
    top-down edit [apply] under the composed decision function of the chain, and
@@ -163,6 +164,108 @@ Print Assumptions C18_keep_total.
 Theorem C18_coverage_exact : forall n, tchildren n = all_children n <-> gaps n = [].
 Proof. exact coverage_exact. Qed.
 Print Assumptions C18_coverage_exact.
+
+(* ---- edits stay local, at every depth (Proofs/VisitorLocality.v) ----
+   [subvt T t]: t is a node of the visit tree T (at any depth);  [step_ok act t]:
+   the node obeys the decision act takes for it.  For every successful visit,
+   at EVERY node x entered anywhere in the traversal:
+     Delete / Skip : x is not left and none of its children is entered;
+     Keep          : x is left as itself after exactly its traversed children,
+                     each entered once, in order;
+     Replace m     : the replacement m is what is left, after exactly m's
+                     traversed children (not x's);
+   and the node was reached from the root through kept / replaced nodes only.
+   (C18_delete / _skip / _replace above are the case t = the root.) *)
+Theorem C18_deep : forall vs fuel n tr r,
+  visit fuel vs n = Ok (tr, r) ->
+  forall t, subvt (vtree fuel (compose (acts_of vs)) n) t ->
+    step_ok (compose (acts_of vs)) t /\ reach (compose (acts_of vs)) n (vt_root t).
+Proof. exact visit_deep. Qed.
+Print Assumptions C18_deep.
+
+(* The outcome of a visit depends on the decisions taken at the nodes it
+   enters and on nothing else: two chains that decide alike on every node
+   reached from n produce the same tree and the same visit tree. *)
+Theorem C18_local : forall vs vs' fuel n,
+  (forall m, reach (compose (acts_of vs)) n m -> compose (acts_of vs) m = compose (acts_of vs') m) ->
+  apply fuel (compose (acts_of vs)) n = apply fuel (compose (acts_of vs')) n /\
+  vtree fuel (compose (acts_of vs)) n = vtree fuel (compose (acts_of vs')) n.
+Proof. exact visit_local. Qed.
+Print Assumptions C18_local.
+
+(* A subtree in which the chain keeps every node it reaches ([quiet]; by
+   C18_quiet_chain: every visitor keeps it) comes back unchanged and is walked
+   in full -- whatever the visitors do elsewhere in the document. *)
+Theorem C18_quiet_unchanged : forall vs fuel n tr r,
+  visit fuel vs n = Ok (tr, r) -> quiet (compose (acts_of vs)) n ->
+  r = Some n /\
+  tr = render (enter_block (acts_of vs) 0) (leave_block 0 (length (acts_of vs))) (full_tree fuel n).
+Proof. exact visit_quiet. Qed.
+Print Assumptions C18_quiet_unchanged.
+
+Theorem C18_quiet_chain : forall acts n,
+  compose acts n = Keep <-> forall a, In a acts -> a n = Keep.
+Proof. exact compose_keep_iff. Qed.
+Print Assumptions C18_quiet_chain.
+
+(* Exactly that member.  In any list-valued child slot ([e_list], the slots of
+   [map_children]; inj / proj are the slot's class) whose other members are
+   quiet: deleting member x gives the list without x, skipping it gives the
+   list as it was, replacing it by m (whose own children are quiet) gives the
+   list with m in the place of x -- nothing else moves. *)
+Theorem C18_member_delete : forall X (inj : X -> node) (proj : node -> option X),
+  (forall x, proj (inj x) = Some x) ->
+  forall act fuel pre post x l',
+  (forall y, In y pre -> quiet act (inj y)) -> (forall y, In y post -> quiet act (inj y)) ->
+  e_list inj proj (apply (S fuel) act) (pre ++ x :: post) = Ok l' ->
+  act (inj x) = Delete -> l' = pre ++ post.
+Proof. exact member_delete. Qed.
+Print Assumptions C18_member_delete.
+
+Theorem C18_member_skip : forall X (inj : X -> node) (proj : node -> option X),
+  (forall x, proj (inj x) = Some x) ->
+  forall act fuel pre post x l',
+  (forall y, In y pre -> quiet act (inj y)) -> (forall y, In y post -> quiet act (inj y)) ->
+  e_list inj proj (apply (S fuel) act) (pre ++ x :: post) = Ok l' ->
+  act (inj x) = Skip -> l' = pre ++ x :: post.
+Proof. exact member_skip. Qed.
+Print Assumptions C18_member_skip.
+
+Theorem C18_member_replace : forall X (inj : X -> node) (proj : node -> option X),
+  (forall x, proj (inj x) = Some x) ->
+  forall act fuel pre post x l',
+  (forall y, In y pre -> quiet act (inj y)) -> (forall y, In y post -> quiet act (inj y)) ->
+  e_list inj proj (apply (S fuel) act) (pre ++ x :: post) = Ok l' ->
+  forall m, act (inj x) = Replace m -> (forall c, In c (tchildren m) -> quiet act c) ->
+  exists x', proj m = Some x' /\ l' = pre ++ x' :: post.
+Proof. exact member_replace. Qed.
+Print Assumptions C18_member_replace.
+
+(* ---- the oracle of the correspondence harness ----
+   The boolean comparison used to compare the implementation's recorded trace
+   and result tree with the model's (Lang/VisitorEq.v: class, loc and every
+   attribute) decides Leibniz equality; a case the oracle accepts is one where
+   the recorded observation IS the model's output. *)
+Theorem C18_oracle_reflects :
+  (forall a b, node_eqb a b = true <-> a = b) /\
+  (forall a b, event_eqb a b = true <-> a = b) /\
+  (forall a b, leqb event_eqb a b = true <-> a = b) /\
+  (forall a b, oeqb node_eqb a b = true <-> a = b).
+Proof.
+  split; [exact node_eqb_eq|]. split; [exact event_eqb_eq|]. split; [exact trace_eqb_eq|exact result_eqb_eq].
+Qed.
+Print Assumptions C18_oracle_reflects.
+
+Theorem C18_oracle_sound : forall i o',
+  agree_C18 (i, o') = true ->
+  match model_C18 i with
+  | Ok o => o = o'
+  | Crash 3 => o' = OCrash
+  | Crash 2 => o' = OIllFormed
+  | _ => False
+  end.
+Proof. exact agree_C18_sound. Qed.
+Print Assumptions C18_oracle_sound.
 
 (* non-vacuity: { foo bar { x } baz } with a dispatching visitor that deletes
    foo, skips bar and replaces baz; chained with a keep-all visitor *)
